@@ -246,6 +246,17 @@ class Interp:
             return [(p, not b) for p, b in self._truth(v[1], path)]
         key = repr(v) if v[0] not in ("free", "sym") else v[1]
         if v[0] == "cmp":
+            # zero tests on an unsigned symbolic count are one predicate: `n > 0`, `n != 0`, `0 < n`, and negated `n == 0`
+            op, a, b = v[1], v[2], v[3]
+            if a[0] == "symint" and b == ("i", 0) and op in ("Ne", "Eq", "Ge", "Le"):
+                if op == "Ne":
+                    return self._truth(("cmp", "Gt", a, b), path)
+                if op == "Eq" or op == "Le":
+                    return [(p, not t) for p, t in self._truth(("cmp", "Gt", a, b), path)]
+            if b[0] == "symint" and a == ("i", 0) and op in ("Lt", "Ne", "Eq", "Ge"):
+                if op in ("Lt", "Ne"):
+                    return self._truth(("cmp", "Gt", b, a), path)
+                return [(p, not t) for p, t in self._truth(("cmp", "Gt", b, a), path)]
             key = "%s(%s,%s)" % (v[1], _short(v[2]), _short(v[3]))
         if key in path.assume:
             return [(path, path.assume[key])]
